@@ -46,11 +46,11 @@ Record core := mkcore { c_reg : Z; c_rpc : option rpc; c_esp : list Z; c_recv : 
 Definition core_of (s : st) : core :=
   mkcore (registered s) (srpc s) (espbuf s) (recvbuf s) (link s) (clrstop s) (clrconn s) (conn s) (t_stop s).
 
-Ltac stsimp := cbn [now boot cycles0 lat lati fired seqc t_wifi t_timer1 t_iter t_wd t_recon t_stop t_value t_gpio2 wstatus wlast
+Ltac stsimp := cbn [now boot cycles0 lat lati fired seqc t_wifi t_timer1 t_iter t_wd t_recon t_stop t_value t_gpio2 t_srv srvdelay srvq wstatus wlast
   link liveres deadres script started registered srpc espbuf recvbuf lastresp lastsent nextwd actto resolving gstate conn wbuf
   stalled outs halted stuck regpay clrstop clrconn evi
   set_now set_boot set_cycles0 set_lat set_lati set_fired set_seqc set_t_wifi set_t_timer1 set_t_iter set_t_wd set_t_recon set_t_stop
-  set_t_value set_t_gpio2 set_wstatus set_wlast set_link set_liveres set_deadres set_script set_started set_registered set_srpc
+  set_t_value set_t_gpio2 set_t_srv set_srvdelay set_srvq set_wstatus set_wlast set_link set_liveres set_deadres set_script set_started set_registered set_srpc
   set_espbuf set_recvbuf set_lastresp set_lastsent set_nextwd set_actto set_resolving set_gstate set_conn set_wbuf set_stalled
   set_outs set_halted set_stuck set_regpay set_clrstop set_clrconn set_evi
   core_of c_reg c_rpc c_esp c_recv c_link c_cs c_cc c_conn c_tstop] in *.
@@ -63,11 +63,16 @@ Lemma core_arm i ms rep s : i <> T_stop -> core_of (arm i ms rep s) = core_of s.
 Proof. intros H. unfold arm. rewrite core_set_tm by auto. reflexivity. Qed.
 Lemma core_disarm i s : i <> T_stop -> core_of (disarm i s) = core_of s.
 Proof. intros H. unfold disarm. apply core_set_tm; auto. Qed.
+Lemma core_srv_on_frame c s : core_of (srv_on_frame c s) = core_of s.
+Proof.
+  unfold srv_on_frame. destruct (_ && _); [|reflexivity].
+  match goal with |- context [if ?c then _ else _] => destruct c end; reflexivity.
+Qed.
 Lemma core_decode k s : core_of (decode k s) = core_of s.
 Proof.
   revert s; induction k as [|k IH]; intros s; cbn [decode]; [reflexivity|].
   repeat match goal with |- context [if ?c then _ else _] => destruct c end; try reflexivity.
-  rewrite IH. reflexivity.
+  rewrite IH, core_srv_on_frame. reflexivity.
 Qed.
 Lemma core_wire_accept b s : core_of (wire_accept b s) = core_of s.
 Proof. unfold wire_accept. rewrite core_decode. reflexivity. Qed.
@@ -499,6 +504,26 @@ Proof.
   intros HI. unfold watchdog_cb. destruct (_ <? _); auto. destruct (_ <? _); [apply Inv_restart; auto|].
   destruct (_ && _); auto. apply devconn_reconnect_inv; auto.
 Qed.
+Lemma Inv_not_live_none s : Inv s -> link s = L_LIVE -> srpc s <> None.
+Proof. intros HI Hl Hn. exact (i_none_link _ HI Hn Hl). Qed.
+
+Lemma recv_cb_inv b s : Inv s -> link s = L_LIVE -> Inv (recv_cb b s).
+Proof.
+  intros HI Hl. unfold recv_cb. destruct (len b =? 0); auto. destruct (_ <=? _); auto.
+  apply devconn_iterate_inv. change (InvC (with_recv (recvbuf s ++ b) (core_of s))).
+  apply InvC_recv; auto. apply Inv_not_live_none; auto.
+Qed.
+
+Lemma srv_cb_inv s : Inv s -> Inv (srv_cb s).
+Proof.
+  intros HI. unfold srv_cb. destruct (srvq s) as [|d rest]; auto.
+  set (s1 := set_srvq rest s).
+  set (s2 := match rest with [] => s1 | d0 :: _ => _ end).
+  assert (C2 : core_of s2 = core_of s) by (subst s2 s1; destruct rest; reflexivity).
+  assert (I2 : Inv s2) by (eapply Inv_core; eauto).
+  destruct (link s2 =? L_LIVE) eqn:E; auto. apply Z.eqb_eq in E.
+  apply recv_cb_inv; auto.
+Qed.
 Lemma callback_inv i s : Inv s -> Inv (callback i s).
 Proof.
   intros HI. destruct i; cbn [callback]; auto.
@@ -508,6 +533,7 @@ Proof.
   - apply watchdog_cb_inv; auto.
   - apply devconn_reconnect_inv; auto.
   - apply devconn_stop_inv; [apply (i_cs _ HI)|apply (i_cc _ HI)].
+  - apply srv_cb_inv; auto.
 Qed.
 Definition tid_eq_dec (a b : tid) : {a = b} + {a <> b}.
 Proof. decide equality. Defined.
@@ -561,16 +587,6 @@ Proof.
 Qed.
 
 (* ---------- events ---------- *)
-Lemma Inv_not_live_none s : Inv s -> link s = L_LIVE -> srpc s <> None.
-Proof. intros HI Hl Hn. exact (i_none_link _ HI Hn Hl). Qed.
-
-Lemma recv_cb_inv b s : Inv s -> link s = L_LIVE -> Inv (recv_cb b s).
-Proof.
-  intros HI Hl. unfold recv_cb. destruct (len b =? 0); auto. destruct (_ <=? _); auto.
-  apply devconn_iterate_inv. change (InvC (with_recv (recvbuf s ++ b) (core_of s))).
-  apply InvC_recv; auto. apply Inv_not_live_none; auto.
-Qed.
-
 Definition fresh_instance (c t : Z) : rpc := mkrpc c 0 [] [] empty_inb [] false None t.
 
 (* what the connect callback leaves behind: the theorem behind C04_clean_restart *)
@@ -645,6 +661,7 @@ Proof.
   - eapply Inv_core; [|eauto]; reflexivity.
   - eapply Inv_core; [|eauto]; reflexivity.
   - apply local_call_inv; auto.
+  - eapply Inv_core; [|eauto]; reflexivity.
   - auto.
 Qed.
 Lemma step_inv s e : sites_ok CallSites = true -> Inv s -> Inv (step s e).
